@@ -326,3 +326,28 @@ fn note(i: u32) { log_[i % g.n] = i; }
 @compute @workgroup_size(2) fn cs2(@builtin(global_invocation_id) id: vec3<u32>) { note(id.x + g.n); }
 `},
 }
+
+// OverrideMicros: programs with pipeline-overridable constants (used by C12 and C14; not part
+// of C08 because backends require overrides to be resolved first).
+var OverrideMicros = []Micro{
+	{"overrides_nested_use", `
+override scale: f32 = 2.0;
+override count: u32 = 3u;
+override flag: bool = true;
+@id(7) override bias: i32 = -1;
+override derived: f32 = scale * 2.0;
+@group(0) @binding(0) var<storage, read_write> o: array<f32>;
+fn helper(x: f32) -> f32 {
+  if flag { return x * scale; } else { return x + derived; }
+}
+@compute @workgroup_size(1)
+fn main(@builtin(global_invocation_id) gid: vec3<u32>) {
+  var acc = 0.0;
+  for (var i = 0u; i < count; i++) {
+    if i == 1u { acc += helper(f32(i)) * scale; } else { acc += f32(bias); }
+    switch i { case 2u: { acc += derived; } default: { acc -= scale; } }
+  }
+  o[gid.x] = acc;
+}
+`},
+}
